@@ -266,10 +266,14 @@ func vfC20Exec(v *vfT, c vfC20Case) (branching []int) {
 	bw := append([]string{}, mon.backward...)
 	stores := fmt.Sprint(mon.stores[dA])
 	mon.mu.Unlock()
+	// The monitor sees (value read at hook time, value about to be stored); since the hook sits
+	// between the setter's own load and its compare-and-swap, a "backward" pair here does not
+	// prove a backward store (the swap may fail and be abandoned) - it is only a label.  The
+	// deciding oracle is the sequence of ReadyState() samples taken at every quiescent point.
 	if len(bw) > 0 {
-		cls := "C20/backward"
-		v.Violation(cls+"/"+vfC20BackwardKind(bw[0]), "readyState moved backward: %v (all stores of the subject channel: %s); trace %v", bw, stores, trace)
+		v.Label("monitor-saw-stale-setter:" + vfC20BackwardKind(bw[0]))
 	}
+	_ = stores
 	if n := opens.Load(); n > 1 {
 		v.Violation("C20/onopen-twice", "OnOpen handler ran %d times for one registration; trace %v", n, trace)
 	}
